@@ -106,6 +106,21 @@ func (e *Engine) Solve(vc *FnVC, dir string, perMs int, solvers []string, agree 
 		if s == "cvc5" {
 			f = file + ".cvc5"
 		}
+		if len(res.Runs) > 0 && !agree {
+			// later solvers only see the obligations that are still undecided
+			keep := map[int]bool{}
+			for _, o := range vc.obls {
+				if o.Result != "unsat" && o.Result != "sat" && o.Unclaimed == "" {
+					keep[o.idx] = true
+				}
+			}
+			src := z3script
+			if s == "cvc5" {
+				src = cvscript
+			}
+			f = file + "." + s + ".rest"
+			os.WriteFile(f, []byte(filterObligations(src, keep)), 0o644)
+		}
 		run := runSolver(s, f, perMs, total)
 		res.Runs = append(res.Runs, run)
 		if run.smoke != "" && (res.Smoke == "" || res.Smoke == "unknown") {
@@ -149,4 +164,23 @@ func sanitize(s string) string {
 		}
 	}
 	return sb.String()
+}
+
+// filterObligations removes the push/assert/check-sat/pop blocks of obligations that need no further checking
+// (the assumption following each block stays).
+func filterObligations(script string, keep map[int]bool) string {
+	lines := strings.Split(script, "\n")
+	var out []string
+	for i := 0; i < len(lines); i++ {
+		if lines[i] == "(push 1)" && i+4 < len(lines) && strings.HasPrefix(lines[i+2], "(echo \"@obl ") && lines[i+4] == "(pop 1)" {
+			var idx int
+			fmt.Sscanf(lines[i+2], "(echo \"@obl %d\")", &idx)
+			if !keep[idx] {
+				i += 4
+				continue
+			}
+		}
+		out = append(out, lines[i])
+	}
+	return strings.Join(out, "\n")
 }
